@@ -422,6 +422,10 @@ def replay(case):
 CFG = {
     'tree': dict(world='tree', sub='B', kill=['b1'], cls_subjects=['B', 'C']),
     'diamond': dict(world='diamond', sub='D', kill=['d1'], cls_subjects=['D']),
+    # class declarations only, one level deeper: what a class keeps after its
+    # bases were re-declared depends on the order of four or more declarations
+    'tree-classes': dict(world='tree', sub='B', kill=[], cls_subjects=[], extras=False,
+                         focus=['A', 'B', 'b1']),
 }
 
 
@@ -431,10 +435,12 @@ def run(ctx):
     plan = []
     if ctx.tier == 'quick':
         plan = [('tree', 3, ['b2'], 1),
-                ('diamond', 2, ['D', 'd2'], 1)]
+                ('diamond', 2, ['D', 'd2'], 1),
+                ('tree-classes', 4, None, 0)]
     else:
         plan = [('tree', 4, ['B', 'b2'], 1),
-                ('diamond', 3, ['C', 'D', 'd2'], 1)]
+                ('diamond', 3, ['C', 'D', 'd2'], 1),
+                ('tree-classes', 5, None, 0)]
     if 'depth' in ctx.opts:
         plan = [(p[0], int(ctx.opts['depth']), p[2], int(ctx.opts.get('extra', p[3])))
                 for p in plan]
@@ -449,6 +455,8 @@ def run(ctx):
                 new_states_per_depth=r['per_level'])
             if ctx.viol and not ctx.opts.get('keep_going'):
                 break
+            if not extra:
+                continue
             # one more level from the de-duplicated frontier, on a reduced alphabet
             cfg2 = dict(cfg, focus=focus, extras=False)
             seen = set()
